@@ -517,6 +517,12 @@ def run(ctx: Ctx):
     ctx.guard(rule_sign, ctx, data)
     ctx.guard(rule_group_anchoring, ctx, data)
     ctx.guard(rule_pin_cite_extent, ctx)
+    # offsets produced by the Hyperscan tokenizer index the text only if its byte -> str offset table is exact (shared with C14)
+    from .c14 import rule_offset_table
+    ctx.guard(rule_offset_table, ctx, "R-C02-9")
+    # in markup mode the offsets refer to clean_text(markup, clean_steps) -- the text a caller can compute -- only if that is what Document stores
+    from .c19 import rule_document_text
+    ctx.guard(rule_document_text, ctx, "R-C02-10")
     M = AnnotateModel(ctx)
     if M.bal_fn is not None:
         ctx.ob("R-C02-1", f"utils.{M.bal_fn.name}/rebased", M.bal_ok, f"positions of matches on text[a:b] are rebased by a: {M.bal_why}", node=M.bal_fn, mod=M.um)
